@@ -129,6 +129,47 @@ def worker(job):
     return out, R.queries, sorted(R.ex.fns_reached)
 
 
+def ir_sizes(ck, only):
+    """the sizes objects the real generator computes now (intermediate_representation.json written on a scratch copy):
+    minimum_size <= true minimum and maximum_size >= true maximum (vf/sizes.py) for every container of every view"""
+    from .. import gen
+    from .c10 import ir_covers
+    n = 0
+    scratch, out, rc = gen.regenerate()
+    try:
+        if rc != 0:
+            ck.inconclusive.append('generator exits with status %d: IR sizes not compared' % rc)
+            return 0
+        ir = json.load(open(os.path.join(scratch, 'intermediate_representation.json')))
+        corpus = wowm.Corpus(os.path.join(scratch, 'wow_message_parser', 'wowm'))
+        views = [('world', e, corpus.world_view(e)) for e in ('vanilla', 'tbc', 'wrath')] + [('login', v, corpus.login_view(v)) for v in wowm.LOGIN_ALL]
+        for kind, target, view in views:
+            sec = ir['world' if kind == 'world' else 'login']
+            sz = sizes.Sizer(corpus, view)
+            for o in sec['structs'] + sec['messages']:
+                if not ir_covers(o['tags'], kind, target) or (only and only not in o['name']):
+                    continue
+                cont = view['containers'].get(o['name'])
+                if cont is None or corpus.tag(cont, 'compressed') is not None:
+                    continue
+                try:
+                    lo, hi = sz.container(cont)
+                except (encode.NotSupported, Exception):
+                    continue
+                n += 1
+                imin, imax = o['sizes']['minimum_size'], o['sizes']['maximum_size']
+                key = 'ir-sizes/%s/%s/%s' % (kind, target, o['name'])
+                if imin > lo:
+                    ck.violation(key + '/min', '%s (%s %s): the generator computes minimum_size %d but a valid encoding has %d bytes' % (o['name'], kind, target, imin, lo), {'ir': o['sizes'], 'true': [lo, None if hi == sizes.INF else hi]}, confirmed=True)
+                cap = 0xFFFF if kind == 'world' else 0xFFFF
+                if imax < min(hi, cap) and imax < cap:
+                    ck.violation(key + '/max', '%s (%s %s): the generator computes maximum_size %d but a valid encoding can have %s bytes' % (o['name'], kind, target, imax, 'unboundedly many' if hi == sizes.INF else hi), {'ir': o['sizes'], 'true': [lo, None if hi == sizes.INF else hi]}, confirmed=True)
+        ck.sample({'ir_sizes_objects_compared': n})
+    finally:
+        gen.cleanup()
+    return n
+
+
 def run(tier, only=None):
     ck = Check(PROP, tier, 'model_checking')
     corpus = wowm.Corpus()
@@ -154,7 +195,8 @@ def run(tier, only=None):
             for f in r['findings']:
                 key = '%s/%s' % (r['path'], f['kind'])
                 ck.violation(key, f['what'], dict(f, message=r['path'], guard=r.get('guard'), true=r.get('true')), confirmed=True)
-    ck.assume('the accepted size set is extracted from the compiled guard of read_inner; the sizes object of the IR and the docs are not produced in this snapshot (the generator aborts before writing them) and are not compared')
+    ir_n = ir_sizes(ck, only)
+    ck.assume('the accepted size set is extracted from the compiled guard of read_inner; the sizes objects of the regenerated IR (all views, structs and messages) are compared with the same true extrema (minimum_size <= min, maximum_size >= max up to the 65535 cap)')
     ck.assume('lengths: vf/sizes.py; CString <= 255 characters, String <= 255, arrays with 8/16-bit counts over their full range, arrays with 32-bit counts and endless arrays: only counts up to 3 are required to be accepted (the definition states no limit; larger counts fall under the implementation\'s allocation limits), SizedCString text <= 8000 bytes (implementation limit), all capped by the largest body a frame can carry')
     ck.assume('login messages carry no size guard and are outside this check')
     return ck.finish({'states': max(nm, 1), 'transitions': max(nq, 1), 'traces_validated_against_impl': 0, 'messages': nm, 'shapes_as_witnesses': nshapes, 'queries': nq,
